@@ -23,6 +23,12 @@ CLAIMED = {
  "C08": ("Bounded model checking of the payload-level decoders (DNS name/question/answer decoding, NDP options, hop-by-hop extensions, DHCP options, LLDP TLVs, 802.3/LLC processing) on arbitrary or field-corrupted, truncated inputs: every panic condition, every possible repetition of a loop state (non-termination) and every unwinding bound is an SMT obligation; violations are replayed natively (hangs by a watchdog).",
          "Trusted: go/ssa, gse semantics, z3. Partial: the handler-level ProcessPacket functions (ARP, DHCPv4, ICMPv6, DNS/mDNS/NBNS, SSDP) are not encoded; DNS inputs are templates with one (quick) or two (thorough) arbitrary fields; buffer lengths are small (evidence.bounds).",
          "DESIGN.md §4 C08", "bounded symbolic execution with SMT-decided panic / loop-state-repetition obligations, index case-splitting"),
+ "C16": ("Bounded model checking: (a) on every path of Parse over all frames of length 0..1536 each returned view aliases the caller's buffer (same backing object) at the reference decoder's offset and stays inside the frame; (b) for every well-formed frame from an already tracked online host (IPv4, IPv6 link-local, ARP) the reachability of every allocating SSA instruction inside Parse is an SMT query that must be unsat; a reachable site is replayed natively with the runtime's malloc counter.",
+         "Trusted: go/ssa, gse semantics, z3. Allocation is decided at SSA level (heap Alloc in repository code, make, closures, boxing, growing append, string conversions, go, fmt.Errorf); the gc compiler's escape analysis is outside the model.",
+         "DESIGN.md §4 C16", "bounded symbolic execution with provenance assertions and SMT-decided unreachability of allocation sites"),
+ "C19": ("Bounded model checking of the echo waiter protocol: echoNotify from every waiter table of <= 3 entries, Parse on every ICMPv4/ICMPv6 frame up to 80 bytes with a pending waiter (completion iff the reference decoder sees a well-formed echo reply with that identifier), and ping/Ping6 against a programmable connection for every identifier-counter value (no reply, send failure, matching reply, foreign identifier, overlapping second ping): nil iff own reply, distinct identifiers, no waiter left behind.",
+         "Trusted: go/ssa, gse semantics (channels/select in sequential mode: timer arm always enabled, closed wake-up channel enables its arm, all enabled arms explored), z3. Real goroutine interleavings are not explored.",
+         "DESIGN.md §4 C19", "bounded symbolic execution with symbolic waiter tables / identifier counter, SMT-decided completion conditions"),
 }
 
 NOT_APPLICABLE = {
